@@ -52,6 +52,7 @@ BomStep(b, D) ==
 -----------------------------------------------------------------------------
 \* --- the precedence chain.  src = resolved sources:                                           ---
 \* ---   [bom: [bom, seek], override, transport, parent, likely, default: encoding name | "none",  ---
+\* ---    detector: "off" | encoding name | "none"  (verdict of the optional detector),              ---
 \* ---    abs: BOOLEAN; abs = TRUE: meta0 = result of the prescan (abstract models);               ---
 \* ---                  abs = FALSE: data = the bytes, the prescan runs when the chain reaches it]  ---
 MetaOf(src, pos, D) == IF src.abs THEN src.meta0 ELSE PrescanWindow(Window(src.data, pos), D)
@@ -77,7 +78,14 @@ EncStep(st, src, D) ==
       [] st.pc = "parent" ->
             IF src.parent # "none" /\ ~IsUtf16(src.parent) THEN Decide(st, src.parent, "tentative") ELSE [st EXCEPT !.pc = "likely"]
       [] st.pc = "likely" ->
-            IF src.likely # "none" THEN Decide(st, src.likely, "tentative") ELSE [st EXCEPT !.pc = "default"]
+            IF src.likely # "none" THEN Decide(st, src.likely, "tentative") ELSE [st EXCEPT !.pc = "detect"]
+      [] st.pc = "detect" ->                     \* the optional statistical detector (chardet), an oracle-supplied input:
+            \* src.detector = "off" (useChardet false / package not importable), else the encoding its verdict names or
+            \* "none" (no verdict, or a name the label table does not know).  The detector is fed the raw stream (it may
+            \* read it to the end); whatever it says, the stream is rewound, so the document is decoded from its first byte.
+            IF src.detector = "off" THEN [st EXCEPT !.pc = "default"]
+            ELSE IF src.detector # "none" THEN [Decide(st, src.detector, "tentative") EXCEPT !.pos = 0]
+            ELSE [st EXCEPT !.pc = "default", !.pos = 0]
       [] st.pc = "default" ->
             IF src.default # "none" THEN Decide(st, src.default, "tentative") ELSE [st EXCEPT !.pc = "fallback"]
       [] st.pc = "fallback" -> Decide(st, "windows-1252", "tentative")
@@ -96,10 +104,11 @@ Chain(src) == <<
     [e |-> MetaOf(src, 0, {}), c |-> "tentative"],
     [e |-> IF IsUtf16(src.parent) THEN "none" ELSE src.parent, c |-> "tentative"],
     [e |-> src.likely, c |-> "tentative"],
+    [e |-> IF src.detector = "off" THEN "none" ELSE src.detector, c |-> "tentative"],
     [e |-> src.default, c |-> "tentative"],
     [e |-> "windows-1252", c |-> "tentative"] >>
 FirstApplicable(src) ==
-    LET ch == Chain(src) i == CHOOSE i \in 1..8 : ch[i].e # "none" /\ \A j \in 1..(i - 1) : ch[j].e = "none" IN ch[i]
+    LET ch == Chain(src) i == CHOOSE i \in 1..9 : ch[i].e # "none" /\ \A j \in 1..(i - 1) : ch[j].e = "none" IN ch[i]
 \* bytes the decoder must start at: just after a (standard) BOM
 IntendedFrom(src) == BomStep(src.bom, {}).pos
 
@@ -107,7 +116,8 @@ IntendedFrom(src) == BomStep(src.bom, {}).pos
 Sources(data, kw, D) ==
     [bom |-> DetectBom(data, D), abs |-> FALSE, data |-> data,
      override |-> GetEncoding(kw.o), transport |-> GetEncoding(kw.t), parent |-> GetEncoding(kw.p),
-     likely |-> GetEncoding(kw.l), default |-> GetEncoding(kw.d)]
+     likely |-> GetEncoding(kw.l), default |-> GetEncoding(kw.d),
+     detector |-> IF kw.det.on THEN GetEncoding(kw.det.label) ELSE "off"]
 
 -----------------------------------------------------------------------------
 \* --- a meta start tag processed by the "in head" rules (InHeadPhase.startTagMeta) ---
